@@ -100,7 +100,7 @@ fn main() {
                 }
             }
             log(serde_json::json!({"h":"pa","argv": rest.iter().map(|b| jstr(b)).collect::<Vec<_>>(),
-                "env": envs, "cwd": cwd, "pid": pid, "pgid": pgid, "fds": fds_at_start}));
+                "env": envs, "cwd": cwd, "pid": pid, "pgid": pgid, "ppid": unsafe { libc::getppid() }, "fds": fds_at_start}));
         }
         "mk" => {
             let st: i32 = sarg(1).parse().unwrap_or(0);
